@@ -67,6 +67,14 @@ example : readToken [0x0c, 0, 1, 0, 0, 0] = .ok (.i32 1, []) := by rfl
 example : readToken [0x43, 2, 4, 0, 0, 0, 0, 0, 0, 0, 0, 0, 0, 0, 0, 0, 0, 0, 0, 0, 0, 0, 0, 0, 0, 0] = .error .invalidRgb := by
   rfl
 
+/-- `next_token` / `peek_token` / `position` of the `Lexer` object agree with `read_token` on
+the bare byte list: the `next_token` loop is `lexAll` with `position() = bytes consumed`, and
+`peek_token` is `read_token` without the state change. -/
+theorem C08_lexer_api (d : Bytes) :
+    Lexer.run d = ((lexAll d).1, (lexAll d).2.1, d.length - (lexAll d).2.2.length) ∧
+    (∀ (l : Lexer) (t : Token), l.peekToken = some t ↔ ∃ r, readToken l.data = .ok (t, r)) :=
+  ⟨Lexer.run_eq d, Lexer.peekToken_eq⟩
+
 /-- `Buffer_refines`: the concrete `BufferWindow` (memory of `cap` bytes, `start`, `end`,
 `prior_reads`) refines the abstract view "position, window contents, undelivered bytes".
 The invariant `Buf.Inv` = `start ≤ end ≤ |mem|` (`|mem| = cap` in builder mode) and
@@ -122,6 +130,12 @@ theorem C08_stream_eq_lexer (buffer data : Bytes) (sched : List Step) (hcap : 0 
       (Reader.streamAll (Reader.build buffer (Src.new data sched))).2.2.position = data.length ∧
       (Reader.streamAll (Reader.build buffer (Src.new data sched))).2.2.src.rest = []) :=
   streamAll_eq data _ (rinv_build buffer data sched hcap hwf) rfl (Or.inr hfit) hnf
+
+example : Fits 6 [0x0c, 0, 1, 0, 0, 0] ∧ Fits 30 [0x43, 2, 3, 0, 0x14, 0, 1, 0, 0, 0, 0x14, 0] :=
+  ⟨fitsBuffer_sound _ _ (by rfl), fitsBuffer_sound _ _ (by rfl)⟩
+
+example : Src.WfSched [.give 2, .give 1, .repeat 3] ∧ Src.NoFaults [.give 2, .give 1, .repeat 3] := by
+  simp [Src.WfSched, Src.NoFaults]
 
 /-- the same for `TokenReader::from_slice` (no buffer, no schedule, no hypothesis) -/
 theorem C08_slice_eq_lexer (data : Bytes) :
